@@ -475,7 +475,12 @@ def parse_out(out):
         assert o.tok() == "X"
         x = [o.fr() for _ in range(o.nat())]
         assert o.tok() == "S"
-        res.append((ev, x, o.nat()))
+        st = o.nat()
+        y = None
+        if not o.done() and o.t[o.p] == "Y":
+            o.tok()
+            y = [o.fr() for _ in range(o.nat())]
+        res.append((ev, x, st, y))
     return res
 
 
@@ -528,7 +533,8 @@ def oracle(case, out):
     except Exception as e:  # a malformed case is a bug of this check
         return "unparsable case: %s" % e
     nl = len(ns)
-    judge_values = (op == "mg")
+    judge_values = op in ("mg", "mgx")
+    with_ref = op in ("mgx", "mgxr")
     expected = []
     verdict = None  # expected abnormal outcome
     for (cyc, cgc, top, crs, d) in apps:
@@ -553,7 +559,7 @@ def oracle(case, out):
         return "unparsable implementation output (%s): %s" % (e, out[:200])
     if len(got) != len(expected):
         return "%d applications reported, expected %d" % (len(got), len(expected))
-    for k, ((cyc, top, crs, elog, ex), (ev, x, st)) in enumerate(zip(expected, got)):
+    for k, ((cyc, top, crs, elog, ex), (ev, x, st, y)) in enumerate(zip(expected, got)):
         ell = crs - top
         visits, peaks = skeleton(ev)
         if ell == 0:
@@ -579,6 +585,9 @@ def oracle(case, out):
                 k, j, " ".join(ev[j:j + 4]), " ".join(elog[j:j + 4]))
         if st != 1:
             return "application %d: status not success" % k
+        if with_ref and y != x:
+            return "application %d: vec_cor differs from the independent recursive C++ reference: got %s, reference %s" \
+                % (k, " ".join(map(fs, x))[:120], " ".join(map(fs, y or []))[:120])
         want = REGRESSION.get(case.split(" ", 1)[1]) if len(expected) == 1 else None
         if want is not None and x != want:
             return "regression F-C09-1: vec_cor %s, expected %s" % (" ".join(map(fs, x)), " ".join(map(fs, want)))
@@ -702,6 +711,22 @@ def main(argv):
     streams = []
     if cases:
         streams.append(vlib.Stream("multigrid", cases, [binary], vlib.driver_cmd(PROP), oracle=oracle,
+                                   nontrivial=nontrivial, describe=describe, signature=signature, canon=canon))
+    refc = []
+    if not args.replay:
+        lim = 2500 if args.tier == "quick" else 30000
+        for c in enum_control_cases() + cases:
+            if len(refc) >= lim:
+                break
+            if c.startswith("mg ") or c.startswith("mgr "):
+                op, ns, levels, apps = parse_case(c)
+                if all(level_range(len(ns), a[2], a[3]) for a in apps):
+                    refc.append(("mgx " if op == "mg" else "mgxr ") + c.split(" ", 1)[1])
+    elif cases and cases[0].startswith("mgx"):
+        refc, cases = cases, []
+        streams = []
+    if refc:
+        streams.append(vlib.Stream("reference", refc, [binary], vlib.driver_cmd(PROP), oracle=oracle,
                                    nontrivial=nontrivial, describe=describe, signature=signature, canon=canon))
     dbl = []
     if not args.replay:
